@@ -63,7 +63,12 @@ theorem reopen_gen (cfg : Cfg) : Triple P (reopenIfNeeded cfg) (fun _ => P) P :=
   split
   · exact Triple.unit
   · refine Triple.seq (tick_spec L.insens _) (Triple.ite (fun _ => ?_) (fun _ => Triple.unit))
-    exact Triple.seq L.close (Triple.seq (tick_spec L.insens _) (L.create _ _))
+    refine Triple.seqM _ (fun a ha => ?_)
+    obtain ⟨s, _, rfl⟩ := List.mem_map.1 ha
+    cases s with
+    | close => exact L.close
+    | mkdirs => exact tick_spec L.insens _
+    | create => exact L.create _ _
 
 theorem lazyCreate_gen (cfg : Cfg) (o : Orc) : Triple P (lazyCreate cfg o) (fun _ => P) P := by
   unfold lazyCreate
@@ -71,7 +76,11 @@ theorem lazyCreate_gen (cfg : Cfg) (o : Orc) : Triple P (lazyCreate cfg o) (fun 
 
 theorem stopBody_gen (cfg : Cfg) (o : Orc) : Triple P (stopBody cfg o) (fun _ => P) P := by
   unfold stopBody
-  exact Triple.seq (Triple.whenM (fun _ => reopen_gen L _)) (terminate_gen L _ _ _)
+  refine Triple.seqM _ (fun a ha => ?_)
+  obtain ⟨s, _, rfl⟩ := List.mem_map.1 ha
+  cases s with
+  | reopen => exact Triple.whenM (fun _ => reopen_gen L _)
+  | terminate => exact terminate_gen L _ _ _
 
 /-- `write` = a prefix that keeps `P`, then the actual `file.write` -/
 theorem writeBody_gen (cfg : Cfg) (o : Orc) {Q E : W → Prop} (hPE : ∀ w, P w → E w)
@@ -111,15 +120,16 @@ theorem Sub.del {f fs : FS} (h : Sub f fs) (n : Name) : Sub (f.del n) fs := by
   · simp [hx] at hg
   · simp only [hx, ↓reduceIte] at hg; exact h n' e' hg
 
-/-- the sink's own fields (everything in `W` except the directory, the fault vector and the ghosts) -/
+/-- the sink's own fields (everything in `W` except the directory, the fault vector and the other ghosts) -/
 structure Core where
   cur : Option Name
   closed : Bool
   detached : Bool
   mismatch : Bool
   nextId : Nat
+  orphaned : List Nat      -- ghost: only `writeMsg` changes it
 
-def W.core (w : W) : Core := ⟨w.cur, w.closed, w.detached, w.mismatch, w.nextId⟩
+def W.core (w : W) : Core := ⟨w.cur, w.closed, w.detached, w.mismatch, w.nextId, w.orphaned⟩
 
 /-- a predicate on (directory, sink fields) that content-preserving changes of the directory keep -/
 def SubClosed (R : FS → Core → Prop) : Prop := ∀ fs fs' c, R fs c → Sub fs' fs → R fs' c
@@ -193,7 +203,8 @@ theorem sc_renameSame (o : Orc) (new : Name) (old : Option Name) :
 
 theorem sc_compressFn (k : CompKind) (p out : Name) :
     Triple (fun w => R w.fs w.core) (compressFn k p out) (fun _ w => R w.fs w.core) (fun w => R w.fs w.core) := by
-  unfold compressFn
+  rw [compressFn_eq]
+  unfold compressFnHand
   refine Triple.seq (openSrc_spec (sc_insens hR) k p) ?_
   refine Triple.seq (tick_spec (sc_insens hR) _) ?_
   refine Triple.seq (modW_spec _ (fun w hw => hR _ _ _ hw ((Sub.refl _).set out _ (Or.inl rfl)))) ?_
